@@ -144,6 +144,23 @@ def eval_suite(chk, w, rule, nmax, orders=(0, 1, 2), ns=None, fixed=True):
                                                                          new_window=(s2, e2), evaluated_before=r1,
                                                                          x=r2), o2, ok2,
                                                   "the piece of an interval of the new support containing x")
+                # a spline that was moved from (move assignment into a spline with any other window) denotes the zero
+                # function: evaluation returns 0 everywhere, front() throws
+                if n <= 4 and order <= 1:
+                    for (s2, e2) in windows(n):
+                        src = w.spline_on("a", order, grid, s, e)
+                        dst = w.spline_on("b", order, grid, s2, e2)
+                        om = w.run(lambda: w.I.assign_memberwise(dst, src, move=True), "Spline::operator=(Spline&&)")
+                        if om.kind != "val":
+                            continue
+                        casem = dict(order=order, n=n, moved_from=(s, e), target_was=(s2, e2))
+                        for r in sorted({2 * s, 2 * s + 1, 2 * s2, 2 * s2 + 1, 2 * (e2 - 1) if e2 else 0}):
+                            o = w.call(fe, src, [box(Sc(r, frozenset([("x",)])))])
+                            cs.expect(fe, "a moved-from spline evaluates to 0 everywhere", dict(casem, x=r), o,
+                                      o.kind == "val" and is_zero_const(val(o.v)), "0")
+                        o = w.call(ffront, src, [])
+                        cs.expect(ffront, "front of a moved-from spline throws (its support is empty)", casem, o,
+                                  o.throws_lib(), "throws BSplineException")
                 before = snap(sp)
                 for r in ranks:
                     x = Sc(r, frozenset([("x",)]))
@@ -260,6 +277,35 @@ def predicate_suite(chk, w, rule, nmax, order_pairs=((1, 1), (2, 0), (0, 3)), ns
                         cs.expect(f, "s * 0 is zero, whether or not isZero was queried on s before",
                                   dict(order=order, n=n, window=(s, e), queried_before=query_first), o,
                                   is_bool(o, True), "True")
+    # history: the predicates of a moved-from spline are those of the interval-free zero spline on the same grid
+    for order in ((1,) if fixed else ()):
+        cls = w.spline_cls(order)
+        fz = w.method(cls, "isZero", 0)
+        feq0 = w.method(cls, "operator==", 1)
+        fov = w.method(cls, "checkOverlap", 1,
+                       pred=lambda d: ("Spline<%s, %d>" % (w.T, order)) in d["params"][0]["type"])
+        gctor = w.ctor(cls, lambda d: len(d["params"]) == 1 and "Grid<" in d["params"][0]["type"] and
+                       "Spline<" not in d["params"][0]["type"], "grid")
+        for n in (3, 4):
+            grid = w.need_grid(w.grid_values(n))
+            for wa in windows(n):
+                for wb in windows(n):
+                    y = w.spline_on("a", order, grid, *wa)
+                    tgt = w.spline_on("t", order, grid, *wb)
+                    om = w.run(lambda: w.I.assign_memberwise(tgt, y, move=True), "Spline::operator=(Spline&&)")
+                    if om.kind != "val":
+                        continue
+                    case = dict(order=order, n=n, moved_from=wa, its_target_was=wb)
+                    o = w.call(fz, y, [])
+                    cs.expect(fz, "a moved-from spline is zero", case, o, is_bool(o, True), "True")
+                    e0 = w.run(lambda: w.I.construct(gctor, [box(grid)]), "Spline(grid)")
+                    if e0.kind == "val":
+                        o = w.call(feq0, y, [box(e0.v)])
+                        cs.expect(feq0, "a moved-from spline equals the interval-free spline Spline(grid)", case, o,
+                                  is_bool(o, True), "True")
+                    other = w.spline_on("b", order, grid, 0, n)
+                    o = w.call(fov, y, [box(other)])
+                    cs.expect(fov, "a moved-from spline overlaps nothing", case, o, is_bool(o, False), "False")
     # equality
     for order in (0, 1):
         cls = w.spline_cls(order)
@@ -609,6 +655,35 @@ def arithmetic_suite(chk, w, rule, nmax, order_pairs=((1, 1), (2, 1), (1, 2), (0
                                 ok, why = False, "the operand was modified"
                             cs.expect(f, "%s with one object as both operands gives %s" % (nm, "2a" if q else "zero"),
                                       case, o, ok, "(%s)" % why)
+                # history: a spline that was moved from (move assignment into a spline with window wb) is the
+                # interval-free zero spline - as an operand it contributes nothing
+                if A == B and n <= 4:
+                    for wb in windows(n):
+                        if (wa[0] + 2 * wb[1]) % 2:
+                            continue
+                        y = w.spline_on("a", A, grid, *wa)
+                        tgt = w.spline_on("t", A, grid, *wb)
+                        om = w.run(lambda: w.I.assign_memberwise(tgt, y, move=True), "Spline::operator=(Spline&&)")
+                        if om.kind != "val":
+                            continue
+                        for wc in (wb, (0, n)):
+                            b = w.spline_on("b", A, grid, *wc)
+                            inb = lambda I: wc[0] <= I and I + 1 < wc[1]
+                            case = dict(orders=(A, A), n=n, moved_from=wa, its_target_was=wb, b=wc)
+                            for f, nm, first in ((fadd, "moved+b", True), (fadd, "b+moved", False),
+                                                 (fmul, "moved*b", True)):
+                                l, r = (y, b) if first else (b, y)
+                                o = w.call(f, l, [box(r)])
+                                ok, why = False, repr(o)
+                                if o.kind == "val" and isinstance(val(o.v), Obj):
+                                    ok, why = valid_spline(w, val(o.v), n)
+                                    if ok:
+                                        spec = (lambda I, p: frozenset()) if f is fmul else (
+                                            lambda I, p: frozenset([("c", "b", I, p)] if inb(I) and p <= A else []))
+                                        ok, why = _expect_coeffs(spline_view(w, val(o.v)), n, spec,
+                                                                 2 * A if f is fmul else A)
+                                cs.expect(f, "%s: a moved-from operand acts as the zero spline" % nm, case, o, ok,
+                                          "(%s)" % why)
         # differing grids: refused, nothing changed
         for n in ((3, 4,) if fixed else ()):
             grid = w.need_grid(w.grid_values(n))
